@@ -4,8 +4,8 @@ broadcast use {shim::axiom_u256_into_self, shim::axiom_u256_into_obeys, shim::ax
 //%fn packages/haloswap/src/formulas.rs | - | compute_swap
 //%%sig
     ensures
-        /*[C06 swap.pinned]*/ swap_pinned(offer_pool.0 as nat, ask_pool.0 as nat, offer_amount.0 as nat, commission_rate.0.v(), r.0.0 as nat, r.1.0 as nat, r.2.0 as nat),
-        /*[C06 swap.sum]*/ c06_sum(offer_pool.0 as nat, ask_pool.0 as nat, offer_amount.0 as nat, r.0.0 as nat, r.1.0 as nat, r.2.0 as nat),
+        /*[C06,C10,C12 swap.pinned]*/ swap_pinned(offer_pool.0 as nat, ask_pool.0 as nat, offer_amount.0 as nat, commission_rate.0.v(), r.0.0 as nat, r.1.0 as nat, r.2.0 as nat),
+        /*[C06,C10,C12 swap.sum]*/ c06_sum(offer_pool.0 as nat, ask_pool.0 as nat, offer_amount.0 as nat, r.0.0 as nat, r.1.0 as nat, r.2.0 as nat),
         /*[C06 swap.commission-base]*/ c06_commission(commission_rate.0.v(), r.0.0 as nat, r.2.0 as nat),
         /*[C06 swap.bound-lower]*/ c06_lower(offer_pool.0 as nat, ask_pool.0 as nat, offer_amount.0 as nat, commission_rate.0.v(), r.0.0 as nat),
         /*[C06 swap.bound-upper]*/ c06_upper(offer_pool.0 as nat, ask_pool.0 as nat, offer_amount.0 as nat, commission_rate.0.v(), r.0.0 as nat),
